@@ -355,15 +355,24 @@ func grpcExtractResponseMeta(contentTypeShort, contentTypePrefix string, statusC
 
 func grpcAddRequestMeta(contentTypePrefix string, meta requestMeta, headers http.Header) {
 	headers.Set("Content-Type", contentTypePrefix+meta.codec)
+	// Control headers of this protocol that the request metadata does not call
+	// for are removed: a client of another protocol may have sent them as
+	// ordinary headers.
 	if meta.compression != "" {
 		headers.Set("Grpc-Encoding", meta.compression)
+	} else {
+		headers.Del("Grpc-Encoding")
 	}
 	if len(meta.acceptCompression) > 0 {
 		headers.Set("Grpc-Accept-Encoding", strings.Join(meta.acceptCompression, ", "))
+	} else {
+		headers.Del("Grpc-Accept-Encoding")
 	}
 	if meta.hasTimeout {
 		timeoutStr := grpcEncodeTimeout(meta.timeout)
 		headers.Set("Grpc-Timeout", timeoutStr)
+	} else {
+		headers.Del("Grpc-Timeout")
 	}
 }
 
